@@ -315,7 +315,7 @@ def collapse_cost(stepmon, clip=False, limit=1.0, samples=50, mask=None):
         if not hi:
             bounds_ = []
         else:
-            bounds_ = par[w[x[-1],p]] + d[x[-1],p]
+            bounds_ = par[min(w[x[-1],p] + d[x[-1],p], len(par)-1)]
             bounds_ = [(bounds_, bound_[p])]
         # get the indices of the "good" bounds
         bounds = list(zip(*(par[w[x[:-1],p]+d[x[:-1],p]],par[w[x[1:],p]])))
